@@ -4,7 +4,9 @@
 # violation signatures) must be identical. Exit 0 ok, 1 nondeterminism found, 2 trouble.
 set -u
 export GOFLAGS=-mod=mod GOPROXY=off GOSUMDB=off GOTOOLCHAIN=local
-cd /verif || exit 2
+HERE=$(cd "$(dirname "$(readlink -f "$0")")" && pwd)
+export VERIF_DIR=$HERE
+cd "$HERE" || exit 2
 PROPS=${SELFTEST_PROPS:-"C01 C02 C04 C05 C06 C07 C08 C09 C10 C11 C12 C13 C14 C18 C19 C20"}
 NSEEDS=${SELFTEST_SEEDS:-32}
 D=$(mktemp -d /tmp/verif-selftest-XXXXXX)
